@@ -20,9 +20,10 @@ SPEC = {
  "C10": dict(judge="c10", flags_a=["--trace"], flags_b=["--trace", "--skip-directives"], mode_a="plain-nodirectives", mode_b="wild-nodirectives", dirs=[d for d in CORPUS_DIRS if d != "tests/inputs-ignore"],
              rule="same generator and configurations as C01 without ignore directives and ranges (their text is excluded by the property); CRLF, LF and mixed inputs; both regions are clean, region B has no listed input",
              corr="Census.ws_check on the Coq lexer's tokens of the output: every newline of whitespace and block comments in the configured form, no other CR, indentation tabs-only or spaces in a multiple of indent_width, one final line ending"),
- "C11": dict(judge="c11", flags_a=[], flags_b=["--skip-directives"], mode_a="plain-nodirectives", mode_b="wild-nodirectives", dirs=[d for d in CORPUS_DIRS if d != "tests/inputs-ignore"],
+ "C11": dict(judge="c11", flags_a=["--calls"], flags_b=["--calls", "--skip-directives"], mode_a="plain-nodirectives", mode_b="wild-nodirectives", dirs=[d for d in CORPUS_DIRS if d != "tests/inputs-ignore"],
              rule="same generator and configurations as C01 without ignore directives",
-             corr="every quoted string token of the output satisfies the quote rule for the configured style (QuoteMore.needs on the output body)"),
+             corr="every quoted string token of the output satisfies the quote rule for the configured style (QuoteMore.needs on the output body); every call of the output has the form CallForm.call_form gives for its input form, "
+                  "satisfies CallForm.form_ok read off the output alone, and the blank between a function name and `(` is present exactly when CallForm.space_call / space_definition say so (calls and definitions matched in source order on full_moon's ASTs)"),
 }
 
 def expr_family(res):
@@ -82,7 +83,7 @@ def replay(payload, prop):
         print(r.stdout[:2000])
         return 1 if any(l.split()[7:8] != ["ok"] for l in r.stdout.splitlines() if l.startswith("E ")) else 0
     if payload.get("source_hex"):
-        h = [SVH, "run", "--one", payload["syntax"], payload["config"], payload["range"], payload["source_hex"]] + [f for f in payload.get("flags", []) if f in ("--tokens", "--nf", "--idem", "--trace")]
+        h = [SVH, "run", "--one", payload["syntax"], payload["config"], payload["range"], payload["source_hex"]] + [f for f in payload.get("flags", []) if f in ("--tokens", "--nf", "--idem", "--trace", "--calls")]
         lines, errs = run_pipeline_sharded(lambda i, n: (h, [driver("drv_fmt"), sp["judge"]]), shards=1)
         print("\n".join(l[:400] for l in lines))
         return 1 if errs or any(l.startswith("BAD") for l in lines) else 0
